@@ -333,9 +333,41 @@ def gen_cases(ctx, n):
             off = rng.choice([(0.0, 0.0), (0.0, 0.0), (1e3 * sc, -2e3 * sc), (1e6 * sc, 1e6 * sc), (-3e5 * sc, 10.0 * sc)])
             vs = polygon(rng, sc, off)
             ctx.count('mask-polygon-scale-%g-offset-ratio-%g' % (sc, abs(off[0]) / sc))
-            st, mask = call(cm.PolygonMask2D, vs)
+            # the vertices come in every representation the docstring allows ("an Nx2 numpy array or a suitably sized
+            # sequence"); the mask must not follow later edits of the caller's object, nor modify it
+            import numpy as np
+            rep = rng.choice(['list-of-tuples', 'list-of-lists', 'tuple-of-tuples', 'c-array', 'f-array', 'view'])
+            if rep == 'list-of-tuples':
+                arg = list(vs)
+            elif rep == 'list-of-lists':
+                arg = [list(v) for v in vs]
+            elif rep == 'tuple-of-tuples':
+                arg = tuple(vs)
+            elif rep == 'c-array':
+                arg = np.array(vs, dtype=np.float64)
+            elif rep == 'f-array':
+                arg = np.asfortranarray(np.array(vs, dtype=np.float64))
+            else:
+                buf = np.full((len(vs) + 4, 5), 7.5)
+                buf[2:-2, 1:3] = vs
+                arg = buf[2:-2, 1:3]
+            ctx.count('mask-vertices-as-' + rep)
+            before = np.array(arg, dtype=np.float64).copy()
+            st, mask = call(cm.PolygonMask2D, arg)
+            if st == 'ok' and not np.array_equal(np.array(arg, dtype=np.float64), before):
+                ctx.fail('C13:mask:modifies-callers-vertices', 'PolygonMask2D changed the vertices object (%s) it was given' % rep,
+                         dict(vertices=vs, representation=rep))
+            if st == 'ok':
+                # the caller recycles its object
+                if isinstance(arg, np.ndarray):
+                    arg[:] = arg[::-1].copy() * 0.5 + 3.0
+                elif isinstance(arg, list):
+                    if isinstance(arg[0], list):
+                        for v_ in arg:
+                            v_[0], v_[1] = 0.0, 0.0
+                    arg.reverse(); arg.pop()
             if st != 'ok':
-                ctx.fail('C13:mask:ctor', 'PolygonMask2D rejected a simple polygon: %s' % mask, dict(vertices=vs))
+                ctx.fail('C13:mask:ctor', 'PolygonMask2D rejected a simple polygon (%s): %s' % (rep, mask), dict(vertices=vs, representation=rep))
             else:
                 for _ in range(6):
                     px, py = off[0] + sc * rng.uniform(-4.5, 4.5), off[1] + sc * rng.uniform(-4.5, 4.5)
@@ -345,8 +377,8 @@ def gen_cases(ctx, n):
                     got = mask(px, py)
                     ref = crossing(px, py, vs)
                     add('mask', 'poly %s %s' % (fs([px, py]), fs([c_ for v_ in vs for c_ in v_])), int(got),
-                        (got == (1.0 if ref else 0.0), 'C13:mask', 'point %r polygon %r: mask %r, crossing-number %r' % ((px, py), vs, got, ref)),
-                        dict(point=(px, py), vertices=vs), key=(f2b(px), len(vs)))
+                        (got == (1.0 if ref else 0.0), 'C13:mask', 'point %r polygon %r (given as %s, recycled by the caller afterwards): mask %r, crossing-number %r' % ((px, py), vs, rep, got, ref)),
+                        dict(point=(px, py), vertices=vs, representation=rep), key=(f2b(px), len(vs)))
 
         # ---------------- samplers -----------------------------------------------------------------------------
         if it % 4 == 1:
